@@ -344,6 +344,19 @@ func Equal(p1, p2 Ptr) (bool, error) {
 		if l1.flags&isCompositeList == 0 && l2.flags&isCompositeList == 0 && l1.size != l2.size {
 			return false, nil
 		}
+		if b1, b2 := l1.flags&isBitList != 0, l2.flags&isBitList != 0; b1 || b2 {
+			// Bit lists have no per-element byte size: compare them bit by bit.
+			if !b1 || !b2 {
+				return false, nil
+			}
+			bl1, bl2 := BitList{l1}, BitList{l2}
+			for i := 0; i < l1.Len(); i++ {
+				if bl1.At(i) != bl2.At(i) {
+					return false, nil
+				}
+			}
+			return true, nil
+		}
 		if l1.size.PointerCount == 0 && l2.size.PointerCount == 0 && l1.size.DataSize == l2.size.DataSize {
 			// Optimization: pure data lists can be compared bytewise.
 			sz, _ := l1.size.totalSize().times(l1.length) // both list bounds have been validated
